@@ -248,7 +248,8 @@ pub fn to_msg(m: &Sx) -> Option<CosmosMsg> {
         "mig" => WasmMsg::Migrate {
             contract_addr: real(l.get(1)?.atom()),
             new_code_id: l.get(2)?.atom().parse().ok()?,
-            msg: Binary::from(json_str(&l.get(3)?.print())),
+            // `~`: a zero-length message (not even valid JSON)
+            msg: if l.get(3)?.print() == "~" { Binary::default() } else { Binary::from(json_str(&l.get(3)?.print())) },
         }
         .into(),
         "upd" => WasmMsg::UpdateAdmin { contract_addr: real(l.get(1)?.atom()), admin: real(l.get(2)?.atom()) }.into(),
